@@ -1426,6 +1426,9 @@ def _eval_ast(ast, functions):
         assert len(arg_value_pairs) % 2 == 0
         for arg, value in zip(arg_value_pairs[0::2], arg_value_pairs[1::2]):
             assert arg.name not in subs
+            value = function.Array.cast(value)
+            if value.dtype in (bool, int):  # e.g. `?x(x = 1)`: the argument is real-valued
+                value = value.astype(arg.dtype)
             subs[arg.name] = value
         return function.replace_arguments(array, subs)
     elif op == 'call':
